@@ -182,7 +182,9 @@ def gen_sw_lists(c, pts, rng, tag, n):
 def gen_te_curve(c, rng, pairs, tag, nrep):
     for (P, Q) in pairs:
         if not te_ok(c, P, Q):
-            continue        # outside the domain of the unified law (incomplete curve, exceptional pair)
+            # outside the domain of the unified law (incomplete curve, exceptional pair)
+            assert not c.complete, 'vanishing denominator on a complete curve: %s' % c.name
+            continue
         cl = '%s/%s/' % (tag, te_pair_class(c, P, Q))
         modes = [('one', 'one'), ('rnd', 'rnd'), ('neg', 'rnd'), ('rnd', 'one')][:nrep]
         for (m1, m2) in modes:
